@@ -4,6 +4,6 @@ M=$1; PID=$2; TIER=${3:-quick}
 cd /repo || exit 2
 git diff --quiet || { echo "/repo not clean"; exit 2; }
 git apply $M/patch.diff || { echo "patch does not apply"; exit 2; }
-cd /verif && ./check $PID --tier $TIER > $M/check_$PID.log 2>&1; rc=$?
+cd /verif && VERIF_EVIDENCE_DIR=/verif/work/evidence_seed ./check $PID --tier $TIER > $M/check_$PID.log 2>&1; rc=$?
 git -C /repo checkout -- .
 echo "$M $PID exit=$rc $(grep -c VIOLATION $M/check_$PID.log) violation-lines: $(grep VIOLATION $M/check_$PID.log | head -2)"
